@@ -36,6 +36,9 @@ type ScriptConn struct {
 	Reads   int
 	Local   string
 	Remote  string
+	// ReadMarks / WriteMarks: at which scheduler step each Read started handing out bytes from
+	// offset Off of In, and each Write appended at offset Off of Out
+	ReadMarks, WriteMarks []Mark
 }
 
 func NewScriptConn(name string, in []byte) *ScriptConn {
@@ -79,6 +82,9 @@ func (c *ScriptConn) Read(p []byte) (int, error) {
 	if n > len(p) {
 		n = len(p)
 	}
+	if s := simrt.Current(); s != nil {
+		c.ReadMarks = append(c.ReadMarks, Mark{c.pos, s.Step()})
+	}
 	copy(p, c.In[c.pos:c.pos+n])
 	c.pos += n
 	return n, nil
@@ -89,6 +95,9 @@ func (c *ScriptConn) Write(p []byte) (int, error) {
 		return 0, net.ErrClosed
 	}
 	simrt.Yield("net.write")
+	if s := simrt.Current(); s != nil {
+		c.WriteMarks = append(c.WriteMarks, Mark{len(c.Out), s.Step()})
+	}
 	c.Out = append(c.Out, p...)
 	return len(p), nil
 }
